@@ -47,3 +47,31 @@ Proof.
     apply in_app_or in Hb as [Hb|Hb]; [apply H1, Hb|]. apply in_app_or in Hb as [Hb|Hb]; [apply H2, Hb | apply H3, Hb].
 Qed.
 Print Assumptions C10_flag_is_conjunction.
+
+(* the methods as the code has them (Gen/Methods.v, regenerated on every run from glycan.py and factory.py) *)
+From Coq Require Import Ascii.
+From GV Require Import Gen.Methods Proofs.MethodsThm.
+
+(* Glycan.get_smiles as written is the gate model the theorems above are about *)
+Theorem C10_get_smiles_as_written :
+  forall tree_only tree_full full merged,
+    gen_get_smiles tree_only tree_full full merged = get_smiles_model tree_only tree_full full merged.
+Proof. exact gen_get_smiles_eq. Qed.
+Print Assumptions C10_get_smiles_as_written.
+
+(* MonomerFactory.create as written: a written ring letter is never answered with the other ring form; a residue
+   found in no table (or only in the table of the other ring form) is the unknown monomer, which clears the flag *)
+Theorem C10_create_respects_the_ring_letter :
+  forall in_p in_f in_o is_suc ring,
+  (gen_create_choice in_p in_f in_o is_suc ring = CPyranose -> in_p = true /\ ring <> Some "f"%char) /\
+  (gen_create_choice in_p in_f in_o is_suc ring = CFuranose -> in_f = true /\ ring <> Some "p"%char).
+Proof. exact create_respects_ring. Qed.
+Print Assumptions C10_create_respects_the_ring_letter.
+
+Theorem C10_create_unknown :
+  forall in_p in_f ring,
+  (ring = Some "f"%char -> in_f = false -> gen_create_choice in_p in_f false false ring = CUnknown) /\
+  (ring = Some "p"%char -> in_p = false -> gen_create_choice in_p in_f false false ring = CUnknown) /\
+  (in_p = false -> in_f = false -> gen_create_choice in_p in_f false false ring = CUnknown).
+Proof. exact create_unknown. Qed.
+Print Assumptions C10_create_unknown.
